@@ -162,6 +162,9 @@ def h : Handler := fun op j =>
   | "as_reactions" => do
       out (fun (p : PyVal Q × PyVal Q) => "[" ++ showPy p.1 ++ "," ++ showPy p.2 ++ "]")
         (asReactions (← getPy j "K") (← getPyOpt j "kf") (← getPyOpt j "kb") (← getInt j "nf") (← getInt j "nb") (← getBool j "units"))
+  | "arrhenius_args" => do
+      out (fun (r : Q × Q × Q) => showQList [r.1, r.2.1, r.2.2])
+        (arrheniusArgs (← getReg j) (← getPy j "A") (← getPy j "EaR") (← getPy j "T"))
   | "validate_term" => do
       let cs ← (← getArr j "cs").mapM asConcItem
       out showOk (validateTerm (← getPy j "k") cs)
